@@ -176,15 +176,20 @@ func IsNonErrorStatus(status int) bool {
 // map directly (req.Header["x-a"] = ...) instead of using Set, and the field goes out
 // on the wire all the same.
 func headerValues(h http.Header, canonical string) []string {
-	if v, ok := h[canonical]; ok {
-		return v
-	}
+	values := h[canonical]
+	shared := true // values still is the slice of the map
+	// The same field may sit under several keys at once (the canonical one and
+	// others): all of them go out on the wire and together they are one list.
 	for k, v := range h {
-		if len(k) == len(canonical) && http.CanonicalHeaderKey(k) == canonical {
-			return v
+		if k != canonical && len(k) == len(canonical) && http.CanonicalHeaderKey(k) == canonical {
+			if shared {
+				values = append([]string(nil), values...)
+				shared = false
+			}
+			values = append(values, v...)
 		}
 	}
-	return nil
+	return values
 }
 
 // TrimmedCSVSeq returns an iterator over the raw comma-separated string.
